@@ -30,6 +30,7 @@ MAP = {
     "C20_m1": [("C20", "adpcm.ms.ch1")], "C20_m2": [("C20", "adpcm.ima_wav.ch1.b8")],
     "R_g711_intmin": [("C20", "g711.H_ENCODE_I")], "R_d2sc_clip": [("C02", "sc.WR_D.norm1.clip1")], "R_cmdstr0": [("C17", "cmd.SFC_GET_LIB_VERSION")],
     "R_embedshort": [("C14", "embed_open.au.k4,embed_open.au.k1.")], "R_peak_double": [("C18", "peak.double64.double.ch1")], "R_sds_close": [("C01", "blk.sds16.flush.k10")],
+    "R_cart_calloc": [("C03", "wavleaf.cart")],
     "R_wchunk_count": [("C13", "wgrow.count20,chunk.seq.33")], "R_iter_stale": [("C13", "chunk.iter")],
 }
 
